@@ -28,6 +28,9 @@ def oracle(ctx, stores):
     return bad
 
 
+CTX = [None]
+
+
 def known(f):
     """the recorded finding: an extra value-analysis run learns that an ecall is an exit (a7 = 10 or 93)"""
     import re
@@ -47,12 +50,23 @@ def known(f):
         while j >= 0 and (not lines[j].strip() or lines[j].strip().endswith(":") or lines[j].strip().startswith("#")):
             j -= 1
         behind_exit = j >= 0 and re.sub(r"^\w+:\s*", "", lines[j].strip()).split("#")[0].strip().lower() == "ecall"
+    if behind_exit and CTX[0] is not None:
+        # ... and that ecall was NOT yet known to be an exit after the first value analysis (the recorded finding is about
+        # exits that only the second analysis recognises; an exit known from the start whose edge is cut late is something else)
+        o = lib.run_impl(CTX[0], [lib.store_cmd("cfg avail1 -", f["files"], f["base"])], tag="known-c12")[0]
+        em = None
+        for mm in re.finditer(r"C\((\d+) N\(basic ecall@(\d+)\.[^|]*\|[^)]*\) L\[[^\]]*\] \w+ >\[[0-9,]*\] <\[[0-9,]*\] F\[[^\]]*\] ri\[([^\]]*)\]", o):
+            if int(mm.group(2)) == j:
+                em = mm
+        if em is None or re.search(r"(^|;)17=c:(10|93)(;|$)", em.group(3)):
+            behind_exit = False
     if behind_exit:
         return "rerun:stale-facts-behind-late-exit: a node cut off by the last ecall-termination step keeps value facts computed before the cut"
     return None
 
 
 def run(ctx):
+    CTX[0] = ctx
     generic.run(ctx, "C12", ["avail1", "term1", "avail2", "term2", "live"],
                 dict(conforming=40, flow=100, random=60, injected=30, stack=40, loopfn=60, loopslot=30), oracle=oracle, known=known, what="dataflow passes")
 
